@@ -69,12 +69,17 @@ def fetchAccount (cfg : Config) (a : Addr) : Option Account :=
   | none => if a.name.isEmpty then none else fetchByName cfg a.name
   | some k => fetchByKey cfg k
 
-/-- `signer.preCheck`: the resolved account or the failing result -/
-def preCheck (cfg : Config) (client : String) (a : Addr) (op : String) : Except Res Account :=
+/-- `signer.preCheck`: the resolved account or the failing result.
+    `fetchAccount` → `checkAccess` → `unlockAccount`; the latter first asks the account `IsUnlocked()`, and an
+    error from THAT call (`lockStateFail`) is FAILED before any passphrase is tried — so also for an account
+    whose passphrase is unknown. -/
+def preCheck (cfg : Config) (client : String) (a : Addr) (op : String) (lockStateFail : Bool := false) :
+    Except Res Account :=
   match fetchAccount cfg a with
   | none => .error .denied
   | some acct =>
     if !check cfg.access client (acct.wallet ++ "/" ++ acct.name) op then .error .denied
+    else if lockStateFail then .error .failed
     else if !acct.unlockable then .error .denied
     else .ok acct
 
@@ -161,7 +166,7 @@ def verdictRes : Verdict → Res
 def signAtt (s : Inst) (client : String) (a : Addr) (d : AttData) (f : Faults) (signFails : Bool := false) :
     Inst × Pos :=
   if !d.wellFormed then (s, ⟨.denied, none⟩) else
-  match preCheck s.cfg client a opAttest with
+  match preCheck s.cfg client a opAttest f.lockStateFail with
   | .error r => (s, ⟨r, none⟩)
   | .ok acct =>
     -- ruler: assembleMetadata needs a client name (the checker has already required one)
@@ -187,9 +192,9 @@ def firstDup : (seen : List Bytes) → (i : Nat) → List Bytes → Option Nat
   | seen, i, k :: ks => if seen.contains (toBytes48 k) then some i else firstDup (toBytes48 k :: seen) (i + 1) ks
 
 /-- `preCheck` of every position -/
-def preCheckAll {α : Type} (cfg : Config) (client op : String) (items : List (Addr × α)) :
-    List (Except Res (Bytes × α)) :=
-  items.map (fun it => match preCheck cfg client it.1 op with
+def preCheckAll {α : Type} (cfg : Config) (client op : String) (items : List (Addr × α))
+    (lockStateFail : Bool := false) : List (Except Res (Bytes × α)) :=
+  items.map (fun it => match preCheck cfg client it.1 op lockStateFail with
     | .error r => .error r
     | .ok acct => .ok (acct.pubkey, it.2))
 
@@ -197,7 +202,9 @@ def isErr {α : Type} : Except Res α → Bool
   | .error _ => true
   | .ok _ => false
 
-/-- positions reported when some preCheck failed: its result there, UNKNOWN elsewhere -/
+/-- positions reported when some preCheck failed: its result there, UNKNOWN elsewhere.  (Every entry is
+    pre-checked before the batch is given up, and the rules are not consulted.  Under `lockStateFail` every
+    entry fails its pre-check, so none is UNKNOWN.) -/
 def preCheckPositions {α : Type} (pcs : List (Except Res α)) : List Pos :=
   pcs.map (fun p => match p with | .error r => ⟨r, none⟩ | .ok _ => ⟨.unknown, none⟩)
 
@@ -246,7 +253,7 @@ def signAtts (s : Inst) (client : String) (items : List (Addr × AttData)) (f : 
   match firstMalformed (items.map (·.2)) with
   | some i => (s, (List.range n).map (fun j => if j = i then ⟨.denied, none⟩ else ⟨.unknown, none⟩))
   | none =>
-    let pcs := preCheckAll s.cfg client opAttest items
+    let pcs := preCheckAll s.cfg client opAttest items f.lockStateFail
     if pcs.any isErr then (s, preCheckPositions pcs)
     else
       let keyed := okItems pcs
@@ -259,7 +266,7 @@ def signAtts (s : Inst) (client : String) (items : List (Addr × AttData)) (f : 
 def signProp (s : Inst) (client : String) (a : Addr) (d : PropData) (f : Faults) (signFails : Bool := false) :
     Inst × Pos :=
   if !d.wellFormed then (s, ⟨.denied, none⟩) else
-  match preCheck s.cfg client a opPropose with
+  match preCheck s.cfg client a opPropose f.lockStateFail with
   | .error r => (s, ⟨r, none⟩)
   | .ok acct =>
     let (v, db') := onPropose s.db acct.pubkey { domain := d.domain.getD [], slot := d.slot } f
@@ -277,10 +284,10 @@ def signProp (s : Inst) (client : String) (a : Addr) (d : PropData) (f : Faults)
 
 def SignData.wellFormed (d : SignData) : Bool := d.data.isSome && d.domain.isSome
 
-def signGeneric (s : Inst) (client ip : String) (a : Addr) (d : SignData) (signFails : Bool := false) :
-    Inst × Pos :=
+def signGeneric (s : Inst) (client ip : String) (a : Addr) (d : SignData) (signFails : Bool := false)
+    (lockStateFail : Bool := false) : Inst × Pos :=
   if !d.wellFormed then (s, ⟨.denied, none⟩) else
-  match preCheck s.cfg client a opSign with
+  match preCheck s.cfg client a opSign lockStateFail with
   | .error r => (s, ⟨r, none⟩)
   | .ok acct =>
     match onSign s.cfg.adminIPs ip (d.domain.getD []) with
@@ -305,14 +312,14 @@ def signGenerics (adminIPs : List String) (ip : String) (signFails : List Nat) :
                       else (⟨.succeeded, some root⟩, some (k, d))
      | v => (⟨verdictRes v, none⟩, none)) :: signGenerics adminIPs ip signFails (i + 1) rest
 
-def multisign (s : Inst) (client ip : String) (items : List (Addr × SignData)) (signFails : List Nat := []) :
-    Inst × List Pos :=
+def multisign (s : Inst) (client ip : String) (items : List (Addr × SignData)) (signFails : List Nat := [])
+    (lockStateFail : Bool := false) : Inst × List Pos :=
   let n := items.length
   if n = 0 then (s, [⟨.denied, none⟩]) else
   match (items.map (·.2)).findIdx? (fun d => !d.wellFormed) with
   | some i => (s, (List.range n).map (fun j => if j = i then ⟨.denied, none⟩ else ⟨.unknown, none⟩))
   | none =>
-    let pcs := preCheckAll s.cfg client opSign items
+    let pcs := preCheckAll s.cfg client opSign items lockStateFail
     if pcs.any isErr then (s, preCheckPositions pcs)
     else
       let keyed := okItems pcs
@@ -351,6 +358,8 @@ inductive Op where
   | att (client : String) (a : Addr) (d : AttData) (f : Faults)
   | atts (client : String) (items : List (Addr × AttData)) (f : Faults)
   | prop (client : String) (a : Addr) (d : PropData) (f : Faults)
+  /-- (generic requests carry no fault plan in histories: under `lockStateFail`, as under a signing fault, they
+      leave the state as it is — `C06_lock_state_fault_sign / _msign`) -/
   | sign (client ip : String) (a : Addr) (d : SignData)
   | msign (client ip : String) (items : List (Addr × SignData))
   /-- clean shutdown and restart, or kill and restart: volatile state is lost, the store is kept -/
